@@ -5,7 +5,7 @@ import (
 	"go/ast"
 	"go/token"
 	"go/types"
-	"sort"
+	"golang.org/x/tools/go/cfg"
 	"strings"
 
 	"verif/checker/core"
@@ -254,135 +254,316 @@ func runR191(c *core.Ctx) {
 	}
 }
 
+// lenCmpZero recognises len(x) compared with a constant as an emptiness test: ==0, <1, <=0 (empty) and !=0, >0, >=1
+// (not empty), constant on either side, under the fact's truth value.
+func lenCmpZero(inf *types.Info, f core.Fact) (arg ast.Expr, empty bool, ok bool) {
+	be, isBin := core.Unparen(f.Expr).(*ast.BinaryExpr)
+	if !isBin {
+		return nil, false, false
+	}
+	x, y, op := be.X, be.Y, be.Op
+	if core.ConstOf(inf, x) != nil && core.ConstOf(inf, y) == nil {
+		x, y = y, x
+		switch op {
+		case token.LSS:
+			op = token.GTR
+		case token.GTR:
+			op = token.LSS
+		case token.LEQ:
+			op = token.GEQ
+		case token.GEQ:
+			op = token.LEQ
+		}
+	}
+	cv := core.ConstOf(inf, y)
+	call, isCall := core.Unparen(x).(*ast.CallExpr)
+	if cv == nil || !isCall || len(call.Args) != 1 {
+		return nil, false, false
+	}
+	if b, isB := core.ObjOf(inf, call.Fun).(*types.Builtin); !isB || b.Name() != "len" {
+		return nil, false, false
+	}
+	k := cv.ExactString()
+	switch {
+	case (op == token.EQL && k == "0") || (op == token.LSS && k == "1") || (op == token.LEQ && k == "0"):
+		empty = true
+	case (op == token.NEQ && k == "0") || (op == token.GTR && k == "0") || (op == token.GEQ && k == "1"):
+		empty = false
+	default:
+		return nil, false, false
+	}
+	if !f.Val {
+		empty = !empty
+	}
+	return call.Args[0], empty, true
+}
+
+func rootIdentObj(inf *types.Info, e ast.Expr) types.Object {
+	for {
+		switch x := core.Unparen(e).(type) {
+		case *ast.Ident:
+			return core.ObjOf(inf, x)
+		case *ast.SelectorExpr:
+			e = x.X
+		case *ast.StarExpr:
+			e = x.X
+		case *ast.UnaryExpr:
+			e = x.X
+		case *ast.IndexExpr:
+			e = x.X
+		default:
+			return nil
+		}
+	}
+}
+
 func runR192(c *core.Ctx) {
 	const rel = "d2"
 	inf := info(c, rel)
 	su, _ := mustObj(c, rel, "serviceUris").(*types.TypeName)
-	f, fd := mustDecl(c, rel, "(*Client).handleUriUpdate")
+	_, fd := mustDecl(c, rel, "(*Client).handleUriUpdate")
 	copyF := mustFunc(c, rel, "(*serviceUris).copy")
-	_ = f
 	fn := "(*Client).handleUriUpdate"
-	var watcher types.Object
+	var watcher, event types.Object
 	for _, fl := range fd.Type.Params.List {
 		for _, n := range fl.Names {
 			if nn := namedOf(inf.Defs[n].Type()); nn != nil && nn.Obj() == su {
 				watcher = inf.Defs[n]
+			} else {
+				event = inf.Defs[n]
 			}
 		}
 	}
-	if watcher == nil {
-		c.Unknown(rel, fn, "snapshot parameter", fd.Pos(), "no *serviceUris parameter")
+	if watcher == nil || event == nil {
+		c.Unknown(rel, fn, "snapshot parameter", fd.Pos(), "no *serviceUris parameter and event parameter")
 		return
 	}
-	par := core.Parents(fd)
-	// path variable: first local string assigned from strings.TrimPrefix
-	var pathVar types.Object
+	// path: the local assigned from strings.TrimPrefix; uri: what the payload is decoded into
+	var pathVar, uriVar types.Object
 	ast.Inspect(fd.Body, func(n ast.Node) bool {
-		if as, ok := n.(*ast.AssignStmt); ok && len(as.Rhs) == 1 && pathVar == nil {
-			if call, ok := core.Unparen(as.Rhs[0]).(*ast.CallExpr); ok && core.IsFunc(core.Callee(inf, call), "strings", "TrimPrefix") {
-				pathVar = core.ObjOf(inf, as.Lhs[0])
+		switch x := n.(type) {
+		case *ast.AssignStmt:
+			if len(x.Rhs) == 1 && pathVar == nil {
+				if call, ok := core.Unparen(x.Rhs[0]).(*ast.CallExpr); ok && core.IsFunc(core.Callee(inf, call), "strings", "TrimPrefix") {
+					pathVar = core.ObjOf(inf, x.Lhs[0])
+				}
+			}
+		case *ast.CallExpr:
+			if core.IsFunc(core.Callee(inf, x), "encoding/json", "Unmarshal") && len(x.Args) == 2 && rootIdentObj(inf, x.Args[0]) == event {
+				uriVar = rootIdentObj(inf, x.Args[1])
 			}
 		}
 		return true
 	})
-	// automaton: bit0 copied (watcher reassigned), bit1 written
-	flow := core.NewFlow(c.M, inf, fd.Body)
-	type rinfo struct{ copied, written bool }
-	rets := map[*ast.ReturnStmt]*rinfo{}
-	flow.Run(&core.Automaton{
-		Init: 0,
-		Node: func(state int, n ast.Node) int {
-			if as, ok := n.(*ast.AssignStmt); ok {
-				for _, l := range as.Lhs {
-					if core.ObjOf(inf, l) == watcher {
-						state |= 1
-					}
-					if ix, ok := core.Unparen(l).(*ast.IndexExpr); ok {
-						if _, ok := fieldNamed(inf, ix.X, su, "uris"); ok {
-							state |= 2
+	if pathVar == nil || uriVar == nil {
+		c.Unknown(rel, fn, "event decoding", fd.Pos(), "the node path (strings.TrimPrefix) or the decoded announcement (json.Unmarshal of the event's data) was not found")
+		return
+	}
+	// variables that can hold a copy
+	copyIdx := map[types.Object]int{}
+	isCopyCall := func(e ast.Expr) (types.Object, bool) {
+		call, ok := core.Unparen(e).(*ast.CallExpr)
+		if !ok {
+			return nil, false
+		}
+		if cf := core.Callee(inf, call); cf == nil || cf.Origin() != copyF {
+			return nil, false
+		}
+		sel, ok := core.Unparen(call.Fun).(*ast.SelectorExpr)
+		if !ok {
+			return nil, false
+		}
+		return core.ObjOf(inf, sel.X), true
+	}
+	ast.Inspect(fd.Body, func(n ast.Node) bool {
+		if as, ok := n.(*ast.AssignStmt); ok && len(as.Lhs) == len(as.Rhs) {
+			for i := range as.Lhs {
+				if _, ok := isCopyCall(as.Rhs[i]); ok {
+					if o := core.ObjOf(inf, as.Lhs[i]); o != nil {
+						if _, seen := copyIdx[o]; !seen {
+							copyIdx[o] = len(copyIdx) + 1
 						}
 					}
 				}
 			}
-			for _, call := range core.CallsIn(n) {
-				if id, ok := core.Unparen(call.Fun).(*ast.Ident); ok && id.Name == "delete" {
-					state |= 2
-				}
-			}
-			if r, ok := n.(*ast.ReturnStmt); ok {
-				ri := rets[r]
-				if ri == nil {
-					ri = &rinfo{}
-					rets[r] = ri
-				}
-				ri.copied = ri.copied || state&1 != 0
-				ri.written = ri.written || state&2 != 0
-			}
-			return state
-		},
+		}
+		return true
 	})
-	guards := []struct {
-		name string
-		pred func(core.Fact) bool
-	}{
-		{"empty path (event for the cluster node itself)", func(f core.Fact) bool {
-			be, ok := core.Unparen(f.Expr).(*ast.BinaryExpr)
-			if !ok || be.Op != token.EQL || !f.Val {
-				return false
-			}
-			cv := core.ConstOf(inf, be.Y)
-			return cv != nil && cv.ExactString() == `""` && core.ObjOf(inf, be.X) == pathVar && pathVar != nil
-		}},
-		{"malformed payload (JSON error)", func(f core.Fact) bool {
-			e, nonNil, ok := core.NilTest(inf, f)
-			return ok && nonNil && core.IsErrorType(inf.Types[e].Type)
-		}},
-		{"weight-less announcement", func(f core.Fact) bool {
-			be, ok := core.Unparen(f.Expr).(*ast.BinaryExpr)
-			if !ok || be.Op != token.EQL || !f.Val {
-				return false
-			}
-			call, ok := core.Unparen(be.X).(*ast.CallExpr)
-			if !ok || len(call.Args) != 1 {
-				return false
-			}
-			sel, ok := core.Unparen(call.Args[0]).(*ast.SelectorExpr)
-			cv := core.ConstOf(inf, be.Y)
-			return ok && sel.Sel.Name == "Weights" && cv != nil && cv.ExactString() == "0"
-		}},
+	if len(copyIdx) > 7 {
+		c.Unknown(rel, fn, "snapshot copies", fd.Pos(), "more than 7 variables hold copies of the snapshot")
+		return
 	}
-	for _, g := range guards {
-		found, okRet := false, true
-		for r, ri := range rets {
-			if !core.GuardedByFact(inf, par, r, g.pred, nil) {
-				continue
-			}
-			found = true
-			if len(r.Results) != 1 || core.ObjOf(inf, r.Results[0]) != watcher || ri.copied || ri.written {
-				okRet = false
+	copyVar := func(idx int) types.Object {
+		for o, i := range copyIdx {
+			if i == idx {
+				return o
 			}
 		}
-		c.Check(found && okRet, rel, fn, "ignored event returns the untouched snapshot: "+g.name, fd.Pos(), "", fmt.Sprintf("guarded return found=%v, returns the parameter without copy/write=%v", found, okRet))
+		return nil
 	}
-	// the enumerated ignore edges are the only ones: every return of the untouched parameter sits under one of them
-	var extra []string
-	for r, ri := range rets {
-		if len(r.Results) != 1 || core.ObjOf(inf, r.Results[0]) != watcher || ri.copied || ri.written {
-			continue
+	// The fold step is decided world by world: a world fixes the four things the contract distinguishes (is the event
+	// for the cluster node itself, is it a deletion, is the payload malformed, is the announcement weight-less); edges
+	// whose condition contradicts the world are infeasible; on every remaining path the function must do what the
+	// contract prescribes for that world.
+	const (
+		wEmptyPath = 1 << iota
+		wDataNil
+		wJSONErr
+		wNoWeights
+	)
+	const (
+		aParam = iota // the parameter, nothing copied
+		aCopy         // a copy, nothing written
+		aDel          // a copy with delete(uris, path)
+		aSet          // a copy with uris[path] = uri
+		aBad
+	)
+	classes := []string{
+		"ignored event returns the untouched snapshot: empty path (event for the cluster node itself)",
+		"node deletion removes exactly the event's path",
+		"ignored event returns the untouched snapshot: malformed payload (JSON error)",
+		"ignored event returns the untouched snapshot: weight-less announcement",
+		"node update assigns exactly uris[path] (last write wins, no merge)",
+	}
+	classOf := func(w int) int {
+		switch {
+		case w&wEmptyPath != 0:
+			return 0
+		case w&wDataNil != 0:
+			return 1
+		case w&wJSONErr != 0:
+			return 2
+		case w&wNoWeights != 0:
+			return 3
 		}
-		listed := false
-		for _, g := range guards {
-			if core.GuardedByFact(inf, par, r, g.pred, nil) {
-				listed = true
+		return 4
+	}
+	why := make([]string, len(classes))
+	describe := func(w int) string {
+		return fmt.Sprintf("path empty=%v, data nil=%v, JSON error=%v, no weights=%v", w&wEmptyPath != 0, w&wDataNil != 0, w&wJSONErr != 0, w&wNoWeights != 0)
+	}
+	actionName := []string{"the parameter itself", "an unmodified copy", "a copy with the path deleted", "a copy with the path set to the decoded announcement", "something else (a write to a map that is not a fresh copy, a write at another key, or an untracked value)"}
+	for w := 0; w < 16; w++ {
+		w := w
+		cls := classOf(w)
+		reached := false
+		fail := func(msg string) {
+			if why[cls] == "" {
+				why[cls] = msg
 			}
 		}
-		if !listed {
-			extra = append(extra, c.M.Position(r.Pos()))
+		core.NewFlow(c.M, inf, fd.Body).Run(&core.Automaton{
+			AtEnd: true,
+			Node: func(state int, n ast.Node) int {
+				action, idx := state%5, state/5
+				if as, ok := n.(*ast.AssignStmt); ok {
+					for i, lhs := range as.Lhs {
+						if o := core.ObjOf(inf, lhs); o != nil {
+							if id, isId := core.Unparen(lhs).(*ast.Ident); isId && id != nil {
+								if len(as.Lhs) == len(as.Rhs) {
+									if from, ok := isCopyCall(as.Rhs[i]); ok {
+										switch {
+										case action == aParam && from == watcher, action == aCopy && from == copyVar(idx):
+											action, idx = aCopy, copyIdx[o]
+										default:
+											action = aBad
+										}
+										continue
+									}
+								}
+								if o == watcher || (idx != 0 && o == copyVar(idx)) {
+									action = aBad
+								}
+								continue
+							}
+						}
+						if ix, ok := core.Unparen(lhs).(*ast.IndexExpr); ok {
+							if base, ok := fieldNamed(inf, ix.X, su, "uris"); ok {
+								okWrite := idx != 0 && core.ObjOf(inf, base) == copyVar(idx) && core.ObjOf(inf, ix.Index) == pathVar &&
+									len(as.Lhs) == len(as.Rhs) && rootIdentObj(inf, as.Rhs[i]) == uriVar && (action == aCopy || action == aSet)
+								if okWrite {
+									action = aSet
+								} else {
+									action = aBad
+								}
+							}
+						}
+					}
+				}
+				for _, call := range core.CallsIn(n) {
+					if b, ok := core.ObjOf(inf, call.Fun).(*types.Builtin); ok && b.Name() == "delete" && len(call.Args) == 2 {
+						if base, ok := fieldNamed(inf, call.Args[0], su, "uris"); ok {
+							if idx != 0 && core.ObjOf(inf, base) == copyVar(idx) && core.ObjOf(inf, call.Args[1]) == pathVar && (action == aCopy || action == aDel) {
+								action = aDel
+							} else {
+								action = aBad
+							}
+						}
+					}
+				}
+				if r, ok := n.(*ast.ReturnStmt); ok {
+					reached = true
+					eff := aBad
+					if len(r.Results) == 1 {
+						switch o := core.ObjOf(inf, r.Results[0]); {
+						case action == aBad:
+						case o != nil && idx != 0 && o == copyVar(idx):
+							eff = action
+						case o == watcher:
+							eff = aParam // whatever was written went to a copy that is dropped
+						}
+					}
+					want := map[int][]int{0: {aParam, aCopy}, 1: {aDel}, 2: {aParam, aCopy}, 3: {aParam, aCopy}, 4: {aSet}}[cls]
+					okAct := false
+					for _, a := range want {
+						if a == eff {
+							okAct = true
+						}
+					}
+					if !okAct {
+						fail(fmt.Sprintf("for an event with %s the return at %s yields %s", describe(w), c.M.Position(r.Pos()), actionName[eff]))
+					}
+				}
+				return action + 5*idx
+			},
+			Edge: func(state int, facts []core.Fact) (int, bool) {
+				for _, f := range facts {
+					atom, val, ok := 0, false, false
+					if be, isBin := core.Unparen(f.Expr).(*ast.BinaryExpr); isBin && (be.Op == token.EQL || be.Op == token.NEQ) {
+						x, y := be.X, be.Y
+						if cv := core.ConstOf(inf, x); cv != nil {
+							x, y = y, x
+						}
+						if cv := core.ConstOf(inf, y); cv != nil && cv.ExactString() == `""` && core.ObjOf(inf, x) == pathVar {
+							atom, val, ok = wEmptyPath, (be.Op == token.EQL) == f.Val, true
+						}
+					}
+					if e, nonNil, isNil := core.NilTest(inf, f); isNil {
+						if sel, isSel := core.Unparen(e).(*ast.SelectorExpr); isSel && sel.Sel.Name == "Data" && rootIdentObj(inf, sel) == event {
+							atom, val, ok = wDataNil, !nonNil, true
+						} else if tv, has := inf.Types[e]; has && core.IsErrorType(tv.Type) {
+							atom, val, ok = wJSONErr, nonNil, true
+						}
+					}
+					if arg, empty, isLen := lenCmpZero(inf, f); isLen {
+						if sel, isSel := core.Unparen(arg).(*ast.SelectorExpr); isSel && sel.Sel.Name == "Weights" && rootIdentObj(inf, sel) == uriVar {
+							atom, val, ok = wNoWeights, empty, true
+						}
+					}
+					if ok && (w&atom != 0) != val {
+						return state, false
+					}
+				}
+				return state, true
+			},
+		})
+		if !reached {
+			fail(fmt.Sprintf("for an event with %s no return is reached", describe(w)))
 		}
 	}
-	sort.Strings(extra)
-	c.Check(len(extra) == 0, rel, fn, "events are ignored only for the listed reasons (cluster node, malformed, weight-less)", fd.Pos(), "",
-		"the snapshot is returned untouched at "+strings.Join(extra, ", ")+" for a reason the contract does not list: an announcement that must be applied (e.g. a re-add after a delete) is dropped")
+	for i, name := range classes {
+		c.Check(why[i] == "", rel, fn, name, fd.Pos(), "", why[i])
+	}
 	// the fold step depends on (snapshot, event) only: the client receiver is not consulted
 	var recvUses []string
 	if r := recvObj(inf, fd); r != nil {
@@ -395,44 +576,7 @@ func runR192(c *core.Ctx) {
 	}
 	c.Check(len(recvUses) == 0, rel, fn, "the fold step reads and writes no client state besides the snapshot it was given", fd.Pos(), "",
 		"the client receiver is used at "+strings.Join(recvUses, ", ")+": the tracked set then depends on more than the fold of the history")
-	// delete edge and update edge
-	delOK, updOK := false, false
-	nWrites := 0
-	ast.Inspect(fd.Body, func(n ast.Node) bool {
-		switch x := n.(type) {
-		case *ast.CallExpr:
-			if id, ok := core.Unparen(x.Fun).(*ast.Ident); ok && id.Name == "delete" && len(x.Args) == 2 {
-				nWrites++
-				if base, ok := fieldNamed(inf, x.Args[0], su, "uris"); ok && core.ObjOf(inf, base) == watcher && core.ObjOf(inf, x.Args[1]) == pathVar {
-					// guarded by Data == nil
-					delOK = core.GuardedByFact(inf, par, core.EnclosingStmt(par, x), func(f core.Fact) bool {
-						e, nonNil, ok := core.NilTest(inf, f)
-						if !ok || nonNil {
-							return false
-						}
-						sel, isSel := core.Unparen(e).(*ast.SelectorExpr)
-						return isSel && sel.Sel.Name == "Data"
-					}, nil)
-				}
-			}
-		case *ast.AssignStmt:
-			for _, l := range x.Lhs {
-				if ix, ok := core.Unparen(l).(*ast.IndexExpr); ok {
-					if base, ok := fieldNamed(inf, ix.X, su, "uris"); ok {
-						nWrites++
-						if core.ObjOf(inf, base) == watcher && core.ObjOf(inf, ix.Index) == pathVar {
-							updOK = true
-						}
-					}
-				}
-			}
-		}
-		return true
-	})
-	c.Check(delOK, rel, fn, "node deletion removes exactly the event's path", fd.Pos(), "", "no delete(watcher.uris, path) under event.Data == nil")
-	c.Check(updOK && nWrites == 2, rel, fn, "node update assigns exactly uris[path] (last write wins, no merge)", fd.Pos(), "", fmt.Sprintf("update assignment found=%v, total map writes=%d (expected 2)", updOK, nWrites))
-	_ = copyF
-	// waitForUriUpdates
+	// waitForUriUpdates: inside the loop over the event channel, unconditionally, the fold of the current event is stored
 	_, wd := mustDecl(c, rel, "(*Client).waitForUriUpdates")
 	hu := mustFunc(c, rel, "(*Client).handleUriUpdate")
 	okLoop := false
@@ -444,213 +588,534 @@ func runR192(c *core.Ctx) {
 		if _, isChan := inf.Types[rs.X].Type.Underlying().(*types.Chan); !isChan {
 			return true
 		}
-		ast.Inspect(rs.Body, func(m ast.Node) bool {
-			call, ok := m.(*ast.CallExpr)
-			if !ok {
-				return true
-			}
-			if cf := core.Callee(inf, call); cf != nil && cf.Name() == "Store" && len(call.Args) == 2 {
-				if inner, ok := core.Unparen(call.Args[1]).(*ast.CallExpr); ok && core.Callee(inf, inner) == hu {
-					// the event passed is the range variable
-					if len(inner.Args) == 2 && core.ObjOf(inf, inner.Args[1]) == core.ObjOf(inf, rs.Key) {
+		// the fold result: the call itself or the local it is assigned to
+		isFold := func(e ast.Expr) bool {
+			call, ok := core.Unparen(e).(*ast.CallExpr)
+			return ok && core.Callee(inf, call) == hu && len(call.Args) == 2 && core.ObjOf(inf, call.Args[1]) == core.ObjOf(inf, rs.Key) && rs.Key != nil
+		}
+		folded := map[types.Object]bool{}
+		for _, s := range rs.Body.List {
+			switch st := s.(type) {
+			case *ast.AssignStmt:
+				if len(st.Lhs) == 1 && len(st.Rhs) == 1 && isFold(st.Rhs[0]) {
+					folded[core.ObjOf(inf, st.Lhs[0])] = true
+				}
+			case *ast.ExprStmt:
+				call, ok := core.Unparen(st.X).(*ast.CallExpr)
+				if !ok {
+					continue
+				}
+				if cf := core.Callee(inf, call); cf != nil && cf.Name() == "Store" && len(call.Args) == 2 {
+					if isFold(call.Args[1]) || (folded[core.ObjOf(inf, call.Args[1])] && core.ObjOf(inf, call.Args[1]) != nil) {
 						okLoop = true
 					}
 				}
 			}
-			return true
-		})
+		}
 		return true
 	})
-	c.Check(okLoop, rel, "(*Client).waitForUriUpdates", "every event's fold result is stored, in channel order", wd.Pos(), "", "the loop over the event channel does not Store(handleUriUpdate(current, event)) for each event")
+	c.Check(okLoop, rel, "(*Client).waitForUriUpdates", "every event's fold result is stored, in channel order", wd.Pos(), "", "the loop over the event channel does not unconditionally Store(handleUriUpdate(current, event)) for each event")
 }
 
 func runR193(c *core.Ctx) {
 	const rel = "d2"
 	inf := info(c, rel)
+	su, _ := mustObj(c, rel, "serviceUris").(*types.TypeName)
 	_, fc := mustDecl(c, rel, "(*serviceUris).filterAndChooseHost")
-	iter := mustFunc(c, rel, "(*serviceUris).iterateHostWeights")
+	iter := c.M.LookupFunc(rel, "(*serviceUris).iterateHostWeights") // optional: the walk may be written out in place
 	fac := mustFunc(c, rel, "(*serviceUris).filterAndChooseHost")
 	_, ch := mustDecl(c, rel, "(*serviceUris).chooseHost")
-	// 1. every assignment to the returned variable is inside a callback passed to iterateHostWeights, under hostFilter(host), with the callback's host param
-	var retVar types.Object
-	for _, r := range core.ReturnsIn(fc.Body) {
-		if len(r.Results) == 1 {
-			retVar = core.ObjOf(inf, r.Results[0])
-		}
-	}
+	fcName := "(*serviceUris).filterAndChooseHost"
+
+	// 1. every host that leaves filterAndChooseHost is an announced host — the callback argument of iterateHostWeights,
+	// or the address of the key of a range over the Weights of an entry of the receiver's uris — under hostFilter(host)
 	var filterParam types.Object
 	if len(fc.Type.Params.List) == 1 && len(fc.Type.Params.List[0].Names) == 1 {
 		filterParam = inf.Defs[fc.Type.Params.List[0].Names[0]]
 	}
 	par := core.Parents(fc)
-	nAssign, okAssign := 0, true
+	recv := recvObj(inf, fc)
+	rangeOf := map[types.Object]*ast.RangeStmt{} // key / value variable -> its range statement
+	ast.Inspect(fc.Body, func(n ast.Node) bool {
+		if rs, ok := n.(*ast.RangeStmt); ok {
+			if rs.Key != nil {
+				rangeOf[core.ObjOf(inf, rs.Key)] = rs
+			}
+			if rs.Value != nil {
+				rangeOf[core.ObjOf(inf, rs.Value)] = rs
+			}
+		}
+		return true
+	})
+	directHosts := 0
+	isHost := func(e ast.Expr) bool {
+		e = core.Unparen(e)
+		if id, ok := e.(*ast.Ident); ok && iter != nil {
+			// parameter 0 of a function literal passed to iterateHostWeights
+			o := core.ObjOf(inf, id)
+			for p := par[id]; p != nil; p = par[p] {
+				lit, ok := p.(*ast.FuncLit)
+				if !ok {
+					continue
+				}
+				if len(lit.Type.Params.List) > 0 && len(lit.Type.Params.List[0].Names) > 0 && inf.Defs[lit.Type.Params.List[0].Names[0]] == o {
+					call, ok := par[lit].(*ast.CallExpr)
+					return ok && core.Callee(inf, call) == iter
+				}
+			}
+			return false
+		}
+		u, ok := e.(*ast.UnaryExpr)
+		if !ok || u.Op != token.AND {
+			return false
+		}
+		k := core.ObjOf(inf, u.X)
+		inner := rangeOf[k]
+		if inner == nil || core.ObjOf(inf, inner.Key) != k {
+			return false
+		}
+		wsel, ok := core.Unparen(inner.X).(*ast.SelectorExpr)
+		if !ok || wsel.Sel.Name != "Weights" {
+			return false
+		}
+		outer := rangeOf[core.ObjOf(inf, wsel.X)]
+		if outer == nil || outer.Value == nil || core.ObjOf(inf, outer.Value) != core.ObjOf(inf, wsel.X) {
+			return false
+		}
+		base, ok := fieldNamed(inf, outer.X, su, "uris")
+		if !ok || core.ObjOf(inf, base) != recv {
+			return false
+		}
+		directHosts++
+		return true
+	}
+	filtered := func(at ast.Node, host ast.Expr) bool {
+		return core.GuardedByFact(inf, par, at, func(f core.Fact) bool {
+			fcall, ok := core.Unparen(f.Expr).(*ast.CallExpr)
+			return ok && f.Val && core.ObjOf(inf, fcall.Fun) == filterParam && filterParam != nil && len(fcall.Args) == 1 && core.SameExpr(inf, fcall.Args[0], host)
+		}, nil)
+	}
+	provenance, nHosts := "", 0
+	retVars := map[types.Object]bool{}
+	var topReturns []*ast.ReturnStmt
+	core.WalkNoFuncLit(fc.Body, func(n ast.Node) bool {
+		if r, ok := n.(*ast.ReturnStmt); ok {
+			topReturns = append(topReturns, r)
+		}
+		return true
+	})
+	for _, r := range topReturns {
+		if len(r.Results) != 1 {
+			continue
+		}
+		e := core.Unparen(r.Results[0])
+		switch {
+		case core.IsNil(inf, e):
+		case isHost(e):
+			nHosts++
+			if !filtered(r, e) {
+				provenance = "a host is returned without having passed hostFilter"
+			}
+		default:
+			if id, ok := e.(*ast.Ident); ok && core.ObjOf(inf, id) != nil {
+				retVars[core.ObjOf(inf, id)] = true
+			} else {
+				provenance = fmt.Sprintf("%s is returned, which is not an announced host", core.ExprString(e))
+			}
+		}
+	}
 	ast.Inspect(fc.Body, func(n ast.Node) bool {
 		as, ok := n.(*ast.AssignStmt)
 		if !ok {
 			return true
 		}
 		for i, l := range as.Lhs {
-			if core.ObjOf(inf, l) != retVar || retVar == nil {
+			if !retVars[core.ObjOf(inf, l)] {
 				continue
 			}
-			nAssign++
-			// enclosing FuncLit passed to iterateHostWeights
-			var lit *ast.FuncLit
-			for p := par[as]; p != nil; p = par[p] {
-				if fl, ok := p.(*ast.FuncLit); ok {
-					lit = fl
-					break
-				}
-			}
-			if lit == nil {
-				okAssign = false
+			if len(as.Lhs) != len(as.Rhs) {
+				provenance = "the returned host is assigned from a multi-value expression"
 				continue
 			}
-			call, ok := par[lit].(*ast.CallExpr)
-			if !ok || core.Callee(inf, call) != iter {
-				okAssign = false
+			if core.IsNil(inf, as.Rhs[i]) {
 				continue
 			}
-			hostParam := inf.Defs[lit.Type.Params.List[0].Names[0]]
-			if i >= len(as.Rhs) || core.ObjOf(inf, as.Rhs[i]) != hostParam {
-				okAssign = false
-			}
-			if !core.GuardedByFact(inf, par, as, func(f core.Fact) bool {
-				fcall, ok := core.Unparen(f.Expr).(*ast.CallExpr)
-				return ok && f.Val && core.ObjOf(inf, fcall.Fun) == filterParam && len(fcall.Args) == 1 && core.ObjOf(inf, fcall.Args[0]) == hostParam
-			}, nil) {
-				okAssign = false
+			nHosts++
+			if !isHost(as.Rhs[i]) {
+				provenance = fmt.Sprintf("the returned host is assigned %s, which is not an announced host", core.ExprString(as.Rhs[i]))
+			} else if !filtered(as, as.Rhs[i]) {
+				provenance = "the returned host is assigned without having passed hostFilter"
 			}
 		}
 		return true
 	})
-	c.Check(retVar != nil && nAssign > 0 && okAssign, rel, "(*serviceUris).filterAndChooseHost", "the chosen host is an announced host that passed the filter", fc.Pos(), "",
-		"the returned host is assigned outside the iterateHostWeights callback or without the hostFilter test")
+	c.Check(nHosts > 0 && provenance == "", rel, fcName, "the chosen host is an announced host that passed the filter", fc.Pos(), "", provenance+" (or no host is ever returned)")
 	// 1b. nil is returned only when the selection walk chose nothing: no early return guarded by a weight sum (zero-weight
 	// hosts are still hosts: they keep their scheme's priority and are a valid answer when nothing else is eligible)
 	var early []string
-	for _, r := range core.ReturnsIn(fc.Body) {
-		if len(r.Results) == 1 && core.ObjOf(inf, r.Results[0]) == retVar && retVar != nil {
+	for _, r := range topReturns {
+		if len(r.Results) != 1 || !core.IsNil(inf, r.Results[0]) {
 			continue
 		}
+		if len(fc.Body.List) > 0 && fc.Body.List[len(fc.Body.List)-1] == ast.Stmt(r) {
+			continue // after the walk
+		}
 		onlyLen := core.GuardedByFact(inf, par, r, func(f core.Fact) bool {
-			be, ok := core.Unparen(f.Expr).(*ast.BinaryExpr)
-			if !ok || be.Op != token.EQL || !f.Val {
-				return false
-			}
-			call, ok := core.Unparen(be.X).(*ast.CallExpr)
-			if !ok {
-				return false
-			}
-			id, ok := core.Unparen(call.Fun).(*ast.Ident)
-			return ok && id.Name == "len"
+			_, empty, ok := lenCmpZero(inf, f)
+			return ok && empty
 		}, nil)
 		if !onlyLen {
 			early = append(early, c.M.Position(r.Pos()))
 		}
 	}
-	c.Check(len(early) == 0, rel, "(*serviceUris).filterAndChooseHost", "no host is reported only when the selection walk found none", fc.Pos(), "",
+	c.Check(len(early) == 0, rel, fcName, "no host is reported only when the selection walk found none", fc.Pos(), "",
 		"early return at "+strings.Join(early, ", ")+" that is not an emptiness test: a condition on the weight sum also fires for eligible zero-weight hosts")
-	// 2. iterateHostWeights yields keys of uri.Weights of entries of uris.uris
-	iterD := c.M.Decl(iter)
-	okIter := false
-	ast.Inspect(iterD.Body, func(n ast.Node) bool {
-		rs, ok := n.(*ast.RangeStmt)
-		if !ok {
-			return true
-		}
-		if sel, ok := core.Unparen(rs.X).(*ast.SelectorExpr); ok && sel.Sel.Name == "Weights" {
-			ast.Inspect(rs.Body, func(m ast.Node) bool {
-				if call, ok := m.(*ast.CallExpr); ok && len(call.Args) == 2 {
-					if u, ok := core.Unparen(call.Args[0]).(*ast.UnaryExpr); ok && u.Op == token.AND && core.ObjOf(inf, u.X) == core.ObjOf(inf, rs.Key) && core.ObjOf(inf, call.Args[1]) == core.ObjOf(inf, rs.Value) {
-						okIter = true
-					}
-				}
+	// 2. iterateHostWeights (where the walk is factored out) yields keys of uri.Weights of entries of uris.uris
+	if iter != nil {
+		iterD := c.M.Decl(iter)
+		okIter := false
+		ast.Inspect(iterD.Body, func(n ast.Node) bool {
+			rs, ok := n.(*ast.RangeStmt)
+			if !ok {
 				return true
-			})
-		}
-		return true
-	})
-	c.Check(okIter, rel, "(*serviceUris).iterateHostWeights", "yields each announced host with its own weight", iterD.Pos(), "", "the receiver is not called with (&host, weight) of the Weights map")
-	// 3. chooseHost
+			}
+			if sel, ok := core.Unparen(rs.X).(*ast.SelectorExpr); ok && sel.Sel.Name == "Weights" {
+				ast.Inspect(rs.Body, func(m ast.Node) bool {
+					if call, ok := m.(*ast.CallExpr); ok && len(call.Args) == 2 {
+						if u, ok := core.Unparen(call.Args[0]).(*ast.UnaryExpr); ok && u.Op == token.AND && core.ObjOf(inf, u.X) == core.ObjOf(inf, rs.Key) && core.ObjOf(inf, call.Args[1]) == core.ObjOf(inf, rs.Value) {
+							okIter = true
+						}
+					}
+					return true
+				})
+			}
+			return true
+		})
+		c.Check(okIter, rel, "(*serviceUris).iterateHostWeights", "yields each announced host with its own weight", iterD.Pos(), "", "the receiver is not called with (&host, weight) of the Weights map")
+	} else {
+		c.Check(directHosts > 0, rel, fcName, "yields each announced host with its own weight", fc.Pos(), "", "hosts are not taken from a range over the Weights of the receiver's announcements")
+	}
+
+	// 3. chooseHost, on the control flow graph
+	chName := "(*serviceUris).chooseHost"
 	cpar := core.Parents(ch)
 	var schemes types.Object
 	if len(ch.Type.Params.List) == 1 && len(ch.Type.Params.List[0].Names) == 1 {
 		schemes = inf.Defs[ch.Type.Params.List[0].Names[0]]
 	}
-	noPrioOK, loopOK, filterOK, tailNil := false, false, false, false
+	defs := map[types.Object][]ast.Expr{}
+	choiceVars := map[types.Object]bool{}
+	isFac := func(e ast.Expr) *ast.CallExpr {
+		call, ok := core.Unparen(e).(*ast.CallExpr)
+		if ok && core.Callee(inf, call) == fac && len(call.Args) == 1 {
+			return call
+		}
+		return nil
+	}
 	ast.Inspect(ch.Body, func(n ast.Node) bool {
-		switch x := n.(type) {
-		case *ast.IfStmt:
-			// if len(schemes) == 0 { return uris.filterAndChooseHost(func(*url.URL) bool { return true }) }
-			if be, ok := core.Unparen(x.Cond).(*ast.BinaryExpr); ok && be.Op == token.EQL {
-				if lc, ok := core.Unparen(be.X).(*ast.CallExpr); ok && len(lc.Args) == 1 && core.ObjOf(inf, lc.Args[0]) == schemes {
-					for _, s := range x.Body.List {
-						if r, ok := s.(*ast.ReturnStmt); ok && len(r.Results) == 1 {
-							if call, ok := core.Unparen(r.Results[0]).(*ast.CallExpr); ok && core.Callee(inf, call) == fac && len(call.Args) == 1 {
-								if fl, ok := core.Unparen(call.Args[0]).(*ast.FuncLit); ok && len(fl.Body.List) == 1 {
-									if rr, ok := fl.Body.List[0].(*ast.ReturnStmt); ok && len(rr.Results) == 1 {
-										if cv := core.ConstOf(inf, rr.Results[0]); cv != nil && cv.ExactString() == "true" {
-											noPrioOK = true
-										}
-									}
-								}
-							}
-						}
+		if as, ok := n.(*ast.AssignStmt); ok && len(as.Lhs) == len(as.Rhs) {
+			for i, l := range as.Lhs {
+				if o := core.ObjOf(inf, l); o != nil {
+					defs[o] = append(defs[o], as.Rhs[i])
+					if isFac(as.Rhs[i]) != nil {
+						choiceVars[o] = true
 					}
 				}
-			}
-		case *ast.RangeStmt:
-			if core.ObjOf(inf, x.X) == schemes && x.Value != nil {
-				schemeVar := core.ObjOf(inf, x.Value)
-				var chosen types.Object
-				for _, s := range x.Body.List {
-					switch st := s.(type) {
-					case *ast.AssignStmt:
-						if len(st.Rhs) == 1 {
-							if call, ok := core.Unparen(st.Rhs[0]).(*ast.CallExpr); ok && core.Callee(inf, call) == fac && len(call.Args) == 1 {
-								chosen = core.ObjOf(inf, st.Lhs[0])
-								if fl, ok := core.Unparen(call.Args[0]).(*ast.FuncLit); ok && len(fl.Body.List) == 1 {
-									if rr, ok := fl.Body.List[0].(*ast.ReturnStmt); ok && len(rr.Results) == 1 {
-										if be, ok := core.Unparen(rr.Results[0]).(*ast.BinaryExpr); ok && be.Op == token.EQL {
-											l, r := be.X, be.Y
-											if core.ObjOf(inf, l) == schemeVar {
-												l, r = r, l
-											}
-											if sel, ok := core.Unparen(l).(*ast.SelectorExpr); ok && sel.Sel.Name == "Scheme" && core.ObjOf(inf, r) == schemeVar {
-												filterOK = true
-											}
-										}
-									}
-								}
-							}
-						}
-					case *ast.IfStmt:
-						for _, f := range core.Decompose(st.Cond, true, nil) {
-							if e, nonNil, ok := core.NilTest(inf, f); ok && nonNil && core.ObjOf(inf, e) == chosen && chosen != nil {
-								for _, bs := range st.Body.List {
-									if r, ok := bs.(*ast.ReturnStmt); ok && len(r.Results) == 1 && core.ObjOf(inf, r.Results[0]) == chosen {
-										loopOK = true
-									}
-								}
-							}
-						}
-					}
-				}
-			}
-		case *ast.ReturnStmt:
-			if _, isFn := cpar[cpar[x]].(*ast.FuncDecl); isFn && len(x.Results) == 1 && core.IsNil(inf, x.Results[0]) {
-				tailNil = true
 			}
 		}
 		return true
 	})
-	c.Check(noPrioOK, rel, "(*serviceUris).chooseHost", "without priorities every scheme is eligible", ch.Pos(), "", "the no-priorities branch does not select with a constant-true filter")
-	c.Check(filterOK, rel, "(*serviceUris).chooseHost", "scheme filter compares the host's scheme with the current priority", ch.Pos(), "", "the per-scheme filter is not `u.Scheme == scheme`")
-	c.Check(loopOK && tailNil, rel, "(*serviceUris).chooseHost", "schemes tried in slice order, first non-nil choice returned, nil when none", ch.Pos(), "", fmt.Sprintf("first-non-nil return in the loop=%v, nil after the loop=%v", loopOK, tailNil))
-	// 4. resolver returns an error for nil
+	isLenSchemes := func(e ast.Expr) bool {
+		call, ok := core.Unparen(e).(*ast.CallExpr)
+		if !ok || len(call.Args) != 1 {
+			return false
+		}
+		b, ok := core.ObjOf(inf, call.Fun).(*types.Builtin)
+		return ok && b.Name() == "len" && core.ObjOf(inf, call.Args[0]) == schemes
+	}
+	// loops that visit the schemes in slice order: `range schemes`, or i from 0 by 1 while i < len(schemes) (and,
+	// optionally, while nothing has been chosen yet)
+	loopIndex := map[ast.Stmt]types.Object{}
+	loopValue := map[ast.Stmt]types.Object{}
+	ast.Inspect(ch.Body, func(n ast.Node) bool {
+		switch x := n.(type) {
+		case *ast.RangeStmt:
+			if core.ObjOf(inf, x.X) == schemes && schemes != nil {
+				loopIndex[x], loopValue[x] = nil, nil
+				if x.Key != nil {
+					loopIndex[x] = core.ObjOf(inf, x.Key)
+				}
+				if x.Value != nil {
+					loopValue[x] = core.ObjOf(inf, x.Value)
+				}
+			}
+		case *ast.ForStmt:
+			as, ok := x.Init.(*ast.AssignStmt)
+			if !ok || as.Tok != token.DEFINE || len(as.Lhs) != 1 || len(as.Rhs) != 1 || x.Cond == nil {
+				return true
+			}
+			if cv := core.ConstOf(inf, as.Rhs[0]); cv == nil || cv.ExactString() != "0" {
+				return true
+			}
+			i := core.ObjOf(inf, as.Lhs[0])
+			inc, ok := x.Post.(*ast.IncDecStmt)
+			if !ok || inc.Tok != token.INC || core.ObjOf(inf, inc.X) != i {
+				return true
+			}
+			bound, okCond := false, true
+			for _, f := range core.Decompose(x.Cond, true, nil) {
+				be, isBin := core.Unparen(f.Expr).(*ast.BinaryExpr)
+				switch {
+				case isBin && f.Val && be.Op == token.LSS && core.ObjOf(inf, be.X) == i && isLenSchemes(be.Y),
+					isBin && f.Val && be.Op == token.GTR && core.ObjOf(inf, be.Y) == i && isLenSchemes(be.X):
+					bound = true
+				default:
+					if e, nonNil, ok := core.NilTest(inf, f); ok && !nonNil && choiceVars[core.ObjOf(inf, e)] {
+						continue
+					}
+					okCond = false
+				}
+			}
+			for _, o := range core.AssignedObjs(inf, x.Body) {
+				if o == i {
+					okCond = false
+				}
+			}
+			if bound && okCond {
+				loopIndex[x], loopValue[x] = i, nil
+			}
+		}
+		return true
+	})
+	enclosingLoop := func(n ast.Node) ast.Stmt {
+		for p := cpar[n]; p != nil; p = cpar[p] {
+			switch x := p.(type) {
+			case *ast.RangeStmt, *ast.ForStmt:
+				st := x.(ast.Stmt)
+				if _, ok := loopIndex[st]; ok {
+					return st
+				}
+				return nil
+			}
+		}
+		return nil
+	}
+	isCurrentScheme := func(e ast.Expr, loop ast.Stmt) bool {
+		for depth := 0; depth < 4; depth++ {
+			e = core.Unparen(e)
+			if ix, ok := e.(*ast.IndexExpr); ok {
+				return core.ObjOf(inf, ix.X) == schemes && loopIndex[loop] != nil && core.ObjOf(inf, ix.Index) == loopIndex[loop]
+			}
+			o := core.ObjOf(inf, e)
+			if o == nil {
+				return false
+			}
+			if loopValue[loop] != nil && o == loopValue[loop] {
+				return true
+			}
+			if len(defs[o]) != 1 {
+				return false
+			}
+			e = defs[o][0]
+		}
+		return false
+	}
+	const (
+		kNone = iota
+		kTrue
+		kScheme
+		kOther
+	)
+	classify := func(call *ast.CallExpr) int {
+		arg := core.Unparen(call.Args[0])
+		if o := core.ObjOf(inf, arg); o != nil && len(defs[o]) == 1 {
+			arg = core.Unparen(defs[o][0])
+		}
+		lit, ok := arg.(*ast.FuncLit)
+		if !ok {
+			return kOther
+		}
+		rets := core.ReturnsIn(lit.Body)
+		if len(rets) == 0 || len(core.CallsIn(lit.Body)) > 0 {
+			return kOther
+		}
+		allTrue := true
+		for _, r := range rets {
+			if cv := core.ConstOf(inf, r.Results[0]); cv == nil || cv.ExactString() != "true" {
+				allTrue = false
+			}
+		}
+		if allTrue {
+			return kTrue
+		}
+		if len(lit.Body.List) != 1 || len(rets) != 1 || len(lit.Type.Params.List) != 1 || len(lit.Type.Params.List[0].Names) != 1 {
+			return kOther
+		}
+		p := inf.Defs[lit.Type.Params.List[0].Names[0]]
+		be, ok := core.Unparen(rets[0].Results[0]).(*ast.BinaryExpr)
+		if !ok || be.Op != token.EQL {
+			return kOther
+		}
+		l, r := be.X, be.Y
+		if sel, ok := core.Unparen(r).(*ast.SelectorExpr); ok && sel.Sel.Name == "Scheme" {
+			l, r = r, l
+		}
+		sel, ok := core.Unparen(l).(*ast.SelectorExpr)
+		if !ok || sel.Sel.Name != "Scheme" || core.ObjOf(inf, sel.X) != p {
+			return kOther
+		}
+		if loop := enclosingLoop(call); loop != nil && isCurrentScheme(r, loop) {
+			return kScheme
+		}
+		return kOther
+	}
+	const (
+		csNone = iota
+		csUnknown
+		csNil
+		csNonNil
+	)
+	const (
+		bHead      = 16
+		bExhausted = 32
+		lzEmpty    = 64
+		lzNonEmpty = 128
+	)
+	noPrioWhy, filterWhy, orderWhy := "", "", ""
+	seenTrue, seenScheme, seenReturn := false, false, false
+	set := func(dst *string, msg string) {
+		if *dst == "" {
+			*dst = msg
+		}
+	}
+	core.NewFlow(c.M, inf, ch.Body).Run(&core.Automaton{
+		AtEnd: true,
+		Block: func(st int, b *cfg.Block) int {
+			if _, ok := loopIndex[b.Stmt]; !ok || b.Stmt == nil {
+				return st
+			}
+			switch b.Kind {
+			case cfg.KindRangeLoop, cfg.KindForLoop:
+				st |= bHead
+			case cfg.KindRangeBody, cfg.KindForBody, cfg.KindForPost:
+				st &^= bHead
+			case cfg.KindRangeDone, cfg.KindForDone:
+				if st&bHead != 0 {
+					st = (st &^ bHead) | bExhausted
+				} else if st&3 != csNonNil {
+					set(&orderWhy, "the loop over the schemes is left before all of them were tried although no host was found yet")
+				}
+			}
+			return st
+		},
+		Node: func(st int, n ast.Node) int {
+			cs, kind := st&3, (st>>2)&3
+			upd := func() int { return (st &^ 15) | cs | kind<<2 }
+			for _, call := range core.CallsIn(n) {
+				if core.Callee(inf, call) != fac || len(call.Args) != 1 {
+					continue
+				}
+				k := classify(call)
+				switch k {
+				case kTrue:
+					if st&lzEmpty == 0 {
+						set(&noPrioWhy, "a constant-true filter is used on a path where priorities may be configured: the priority order is ignored")
+					} else {
+						seenTrue = true
+					}
+				case kScheme:
+					seenScheme = true
+					if st&lzEmpty != 0 {
+						set(&noPrioWhy, "a scheme filter is used although no priorities are configured")
+					}
+					if cs != csNone && cs != csNil {
+						set(&orderWhy, "a later scheme is tried although an earlier one may have produced a host: the highest-priority scheme does not win")
+					}
+				default:
+					set(&filterWhy, fmt.Sprintf("the filter passed at %s is neither constant-true nor `u.Scheme == <the scheme being tried, in slice order>`", c.M.Position(call.Pos())))
+				}
+				cs, kind = csUnknown, k
+			}
+			if as, ok := n.(*ast.AssignStmt); ok && len(as.Lhs) == len(as.Rhs) {
+				for i, l := range as.Lhs {
+					if choiceVars[core.ObjOf(inf, l)] && isFac(as.Rhs[i]) == nil {
+						if core.IsNil(inf, as.Rhs[i]) {
+							cs = csNil
+						} else {
+							cs, kind = csUnknown, kOther
+						}
+					}
+				}
+			}
+			if r, ok := n.(*ast.ReturnStmt); ok {
+				seenReturn = true
+				var e ast.Expr
+				if len(r.Results) == 1 {
+					e = core.Unparen(r.Results[0])
+				}
+				isChoice := e != nil && (isFac(e) != nil || choiceVars[core.ObjOf(inf, e)])
+				// a choice variable that no selection was assigned to yet still holds its zero value
+				zeroChoice := isChoice && isFac(e) == nil && cs == csNone && st&lzEmpty == 0
+				switch {
+				case zeroChoice:
+					if st&bExhausted == 0 {
+						set(&orderWhy, fmt.Sprintf("nil is returned at %s before all schemes were tried", c.M.Position(r.Pos())))
+					}
+				case st&lzEmpty != 0:
+					if !isChoice || kind != kTrue {
+						set(&noPrioWhy, fmt.Sprintf("without priorities the return at %s does not yield the choice made with a constant-true filter", c.M.Position(r.Pos())))
+					}
+				case isChoice:
+					if kind != kScheme && kind != kTrue {
+						set(&filterWhy, fmt.Sprintf("the choice returned at %s was not made with a recognised filter", c.M.Position(r.Pos())))
+					}
+					if cs != csNonNil && st&bExhausted == 0 && kind != kTrue {
+						set(&orderWhy, fmt.Sprintf("the return at %s yields a choice that may be nil before all schemes were tried", c.M.Position(r.Pos())))
+					}
+				case e != nil && core.IsNil(inf, e):
+					if st&bExhausted == 0 || (cs != csNone && cs != csNil) {
+						set(&orderWhy, fmt.Sprintf("nil is returned at %s before all schemes were tried, or although a host may have been found", c.M.Position(r.Pos())))
+					}
+				default:
+					set(&orderWhy, fmt.Sprintf("the return at %s yields something that is not the result of the selection", c.M.Position(r.Pos())))
+				}
+			}
+			return upd()
+		},
+		Edge: func(st int, facts []core.Fact) (int, bool) {
+			for _, f := range facts {
+				if arg, empty, ok := lenCmpZero(inf, f); ok && core.ObjOf(inf, arg) == schemes && schemes != nil {
+					if (empty && st&lzNonEmpty != 0) || (!empty && st&lzEmpty != 0) {
+						return st, false
+					}
+					if empty {
+						st |= lzEmpty
+					} else {
+						st |= lzNonEmpty
+					}
+				}
+				if e, nonNil, ok := core.NilTest(inf, f); ok && choiceVars[core.ObjOf(inf, e)] {
+					cs := st & 3
+					switch {
+					case nonNil && (cs == csNil || cs == csNone), !nonNil && cs == csNonNil:
+						return st, false
+					case nonNil:
+						st = (st &^ 3) | csNonNil
+					case cs == csUnknown:
+						st = (st &^ 3) | csNil
+					}
+				}
+			}
+			return st, true
+		},
+	})
+	c.Check(noPrioWhy == "" && seenTrue, rel, chName, "without priorities every scheme is eligible", ch.Pos(), "", noPrioWhy+" (or the no-priorities branch does not select with a constant-true filter)")
+	c.Check(filterWhy == "" && seenScheme, rel, chName, "scheme filter compares the host's scheme with the current priority", ch.Pos(), "", filterWhy+" (or no scheme filter of the form `u.Scheme == scheme` is used inside a loop over the schemes in slice order)")
+	c.Check(orderWhy == "" && seenReturn, rel, chName, "schemes tried in slice order, first non-nil choice returned, nil when none", ch.Pos(), "", orderWhy)
+
+	// 4. resolver returns an error for nil: on the control flow graph, the chosen host is returned only where it is known
+	// non-nil, and where it is known nil the error result is a non-nil error
 	_, rd := mustDecl(c, rel, "(*Client).ResolveHostnameAndContextForQuery")
-	rpar := core.Parents(rd)
 	choose := mustFunc(c, rel, "(*serviceUris).chooseHost")
 	var chosenVar types.Object
 	ast.Inspect(rd.Body, func(n ast.Node) bool {
@@ -661,31 +1126,52 @@ func runR193(c *core.Ctx) {
 		}
 		return true
 	})
-	okRes := chosenVar != nil
-	errOnNil := false
-	for _, r := range core.ReturnsIn(rd.Body) {
-		if len(r.Results) == 2 && core.ObjOf(inf, r.Results[0]) == chosenVar && chosenVar != nil {
-			// must not be reachable with nil: preceded by `if chosen == nil { return nil, err }`
-			list, idx := core.StmtListOf(rpar, r)
-			g := false
-			for i := 0; i < idx; i++ {
-				if ifs, ok := list[i].(*ast.IfStmt); ok {
-					for _, f := range core.Decompose(ifs.Cond, true, nil) {
-						if e, nonNil, ok := core.NilTest(inf, f); ok && !nonNil && core.ObjOf(inf, e) == chosenVar {
-							for _, bs := range ifs.Body.List {
-								if rr, ok := bs.(*ast.ReturnStmt); ok && len(rr.Results) == 2 && core.NonNilErrorExpr(inf, rr.Results[1]) {
-									g = true
-									errOnNil = true
-								}
-							}
+	resWhy, errOnNil, hostReturned := "", false, false
+	if chosenVar == nil {
+		resWhy = "the result of chooseHost is not kept in a variable"
+	} else {
+		core.NewFlow(c.M, inf, rd.Body).Run(&core.Automaton{
+			Node: func(st int, n ast.Node) int {
+				if as, ok := n.(*ast.AssignStmt); ok {
+					for _, l := range as.Lhs {
+						if core.ObjOf(inf, l) == chosenVar {
+							st = 1 // assigned, nil-ness unknown
 						}
 					}
 				}
-			}
-			if !g {
-				okRes = false
-			}
-		}
+				if r, ok := n.(*ast.ReturnStmt); ok && len(r.Results) == 2 && st != 0 {
+					if rootIdentObj(inf, r.Results[0]) == chosenVar {
+						hostReturned = true
+						if st != 3 {
+							set(&resWhy, fmt.Sprintf("the chosen host is returned at %s on a path where it can be nil", c.M.Position(r.Pos())))
+						}
+					}
+					if st == 2 {
+						if core.NonNilErrorExpr(inf, r.Results[1]) {
+							errOnNil = true
+						} else {
+							set(&resWhy, fmt.Sprintf("the return at %s, reached when no host is eligible, does not report an error", c.M.Position(r.Pos())))
+						}
+					}
+				}
+				return st
+			},
+			Edge: func(st int, facts []core.Fact) (int, bool) {
+				for _, f := range facts {
+					if e, nonNil, ok := core.NilTest(inf, f); ok && core.ObjOf(inf, e) == chosenVar && st != 0 {
+						switch {
+						case nonNil && st == 2, !nonNil && st == 3:
+							return st, false
+						case nonNil:
+							st = 3
+						default:
+							st = 2
+						}
+					}
+				}
+				return st, true
+			},
+		})
 	}
-	c.Check(okRes && errOnNil, rel, "(*Client).ResolveHostnameAndContextForQuery", "no eligible host is an error, never a nil URL", rd.Pos(), "", "the chosen host can be returned while nil")
+	c.Check(resWhy == "" && errOnNil && hostReturned, rel, "(*Client).ResolveHostnameAndContextForQuery", "no eligible host is an error, never a nil URL", rd.Pos(), "", resWhy+" (or the nil case is not tested)")
 }
